@@ -28,17 +28,42 @@ def run(ck: Checker):
     # ------------------------------------------------------------------ C18-1
     w, r = mod.func('write_record'), mod.func('read_record')
     probs = []
-    writes = [n for n in walk_shallow_func(w.node) if isinstance(n, ast.Call) and method_of(n)[1] == 'write']
+    writes = sorted([n for n in walk_shallow_func(w.node) if isinstance(n, ast.Call) and method_of(n)[1] == 'write'], key=lambda c: (c.lineno, c.col_offset))
     hdr = None
     payload = None
-    for c in writes:
-        a = c.args[0] if c.args else None
-        if isinstance(a, ast.Call) and method_of(a)[1] == 'encode' and isinstance(method_of(a)[0], ast.JoinedStr):
-            hdr = method_of(a)[0]
+    # what is written, in order: each write argument is taken apart at `+` and local names bound exactly once are
+    # resolved, so that `h = f'…'; w.write(h.encode())` and `w.write(f'…'.encode() + data_bytes)` read like the two writes
+    once = {}
+    for n in walk_shallow_func(w.node):
+        if isinstance(n, ast.Assign) and len(n.targets) == 1 and isinstance(n.targets[0], ast.Name):
+            once.setdefault(n.targets[0].id, []).append(n.value)
+
+    def res(e):
+        seen = 0
+        while isinstance(e, ast.Name) and len(once.get(e.id, [])) == 1 and seen < 4 and not (isinstance(once[e.id][0], ast.Call) and dotted(once[e.id][0].func) == 'encode'):
+            e = once[e.id][0]
+            seen += 1
+        return e
+
+    def parts_of(e):
+        e = res(e)
+        if isinstance(e, ast.BinOp) and isinstance(e.op, ast.Add):
+            return parts_of(e.left) + parts_of(e.right)
+        return [e]
+
+    seq = [p_ for c in writes for p_ in (parts_of(c.args[0]) if c.args else [None])]
+    kinds = []
+    for a in seq:
+        if isinstance(a, ast.Call) and method_of(a)[1] == 'encode' and isinstance(res(method_of(a)[0]), ast.JoinedStr):
+            hdr = res(method_of(a)[0])
+            kinds.append('hdr')
         elif isinstance(a, ast.Name):
             payload = a.id
-    if len(writes) != 2 or hdr is None or payload is None:
-        probs.append('write_record does not write exactly a formatted header and then the payload bytes')
+            kinds.append('payload')
+        else:
+            kinds.append('?')
+    if kinds != ['hdr', 'payload']:
+        probs.append('write_record does not write exactly a formatted header and then the payload bytes' + (' (the payload is written before the header)' if kinds == ['payload', 'hdr'] else ''))
     else:
         parts = []
         for v in hdr.values:
@@ -63,9 +88,6 @@ def run(ck: Checker):
         enc = [n for n in walk_shallow_func(w.node) if isinstance(n, ast.Assign) and is_name(n.targets[0], payload) and isinstance(n.value, ast.Call) and dotted(n.value.func) == 'encode']
         if not enc:
             probs.append('the payload bytes are not produced by encode(data, encoder)')
-        order = [c.lineno for c in writes]
-        if writes and not (isinstance(writes[0].args[0], ast.Call)):
-            probs.append('the payload is written before the header')
     # reader
     ru = [n for n in walk_deep_func(r.node) if isinstance(n, ast.Call) and method_of(n)[1] in ('readuntil', 'readline')]
     rx = [n for n in walk_deep_func(r.node) if isinstance(n, ast.Call) and method_of(n)[1] in ('readexactly', 'read')]
